@@ -123,6 +123,9 @@ func checkQuantifier(r *Run, prog *Program, a *Anchors, pfx string) {
 		return
 	}
 	pExpr, pDatum, pOpt := paramSym(fn.Params[0]), paramSym(fn.Params[1]), paramSym(fn.Params[2])
+	if nP, dP, oP := evalParams(fn); nP != nil && dP != nil && oP != nil {
+		pExpr, pDatum, pOpt = paramSym(nP), paramSym(dP), paramSym(oP)
+	}
 	opKey := loadField(pExpr, "Op").Key()
 	opT := prog.grammarType("CollectionOperator")
 	if opT == nil {
@@ -304,7 +307,7 @@ func checkQuantifier(r *Run, prog *Program, a *Anchors, pfx string) {
 					if ev.Callee == a.GetValue {
 						return a.lookupModel(&Sym{K: sOpaque, V: ev.Instr.Value(), Str: "collection"}, &Sym{K: sConst, C: constant.MakeBool(true)}, nilSym())
 					}
-					if ev.Callee != nil && prog.InModule(ev.Callee) && isBoolErr(ev.Callee.Signature) && len(ev.Args) > 0 && ev.Args[0].Key() == loadField(pExpr, "Inner").Key() {
+					if ev.Callee != nil && prog.InModule(ev.Callee) && isBoolErr(ev.Callee.Signature) && anyArgIs(ev.Args, loadField(pExpr, "Inner")) {
 						var e *Sym = nilSym()
 						if o.isErr() {
 							e = &Sym{K: sNewErr, V: ev.Instr.Value(), Str: "body"}
@@ -331,7 +334,7 @@ func checkQuantifier(r *Run, prog *Program, a *Anchors, pfx string) {
 					cell := fmt.Sprintf("%s[%s,body=%s]", oc.Name(), strings.TrimPrefix(mc.Name(), "CollectionBind"), o)
 					var bodies []Event
 					for _, ev := range sm.Events() {
-						if ev.Instr != nil && ev.Callee != nil && len(ev.Args) > 0 && ev.Args[0].Key() == loadField(pExpr, "Inner").Key() && isBoolErr(ev.Callee.Signature) {
+						if ev.Instr != nil && ev.Callee != nil && anyArgIs(ev.Args, loadField(pExpr, "Inner")) && isBoolErr(ev.Callee.Signature) {
 							bodies = append(bodies, ev)
 						}
 					}
@@ -405,6 +408,23 @@ func checkQuantifier(r *Run, prog *Program, a *Anchors, pfx string) {
 					for n, ev := range bodies {
 						if ev.Callee != a.Dispatch {
 							probs = append(probs, "the body is evaluated through "+ev.Callee.Name()+", not through the dispatcher")
+						}
+						// the callee's parameters by role (the node, the datum and the options may stand in any order)
+						if nP, dP, oP := evalParams(ev.Callee); nP != nil && dP != nil && oP != nil && len(ev.Args) == len(ev.Callee.Params) {
+							var an, ad, ao *Sym
+							for i, q := range ev.Callee.Params {
+								switch q {
+								case nP:
+									an = ev.Args[i]
+								case dP:
+									ad = ev.Args[i]
+								case oP:
+									ao = ev.Args[i]
+								}
+							}
+							if an != nil && ad != nil && ao != nil {
+								ev.Args = []*Sym{an, ad, ao}
+							}
 						}
 						if len(ev.Args) < 3 || ev.Args[1].Key() != pDatum.Key() {
 							probs = append(probs, "the body must be evaluated against the root datum")
@@ -1128,4 +1148,13 @@ func bindingRecord(prog *Program, el *Sym) (name, path, val *Sym) {
 		}
 	}
 	return
+}
+
+func anyArgIs(args []*Sym, x *Sym) bool {
+	for _, a := range args {
+		if a != nil && a.Key() == x.Key() {
+			return true
+		}
+	}
+	return false
 }
